@@ -25,7 +25,7 @@ T3(k, x, y, z) == [k |-> k, a |-> <<x, y, z>>, l |-> <<>>]
 TL(ls) == [k |-> "Literal", a |-> <<>>, l |-> ls]
 
 BuiltinName(k) == CASE k = "int" -> "Int" [] k = "str" -> "String" [] k = "bool" -> "Boolean" [] k = "float" -> "Float" [] k = "Any" -> "Any"
-ClassName(k) == CASE k = "Loc" -> "LocCls" [] k = "Oth" -> "OthCls" [] k = "Col" -> "ColEnum" [] k = "TV" -> "TVar"
+ClassName(k) == CASE k = "Loc" -> "LocCls" [] k = "Oth" -> "OthCls" [] k = "Col" -> "ColEnum" [] k = "TV" -> "TVar" [] k = "TVS" -> "TSelf"      \* TSelf: a type variable bound by LocCls whose name merely ends in "Self"
 
 LitAtom(p) == IF p[1] = "none" THEN Null ELSE Atom("Lit", p[1] \o ":" \o p[2], <<>>)
 
@@ -36,7 +36,7 @@ Canon(t) ==
       n == Len(t.a)
   IN CASE k \in {"int", "str", "bool", "float", "Any"} -> { Atom("Builtin", BuiltinName(k), <<>>) }
        [] k = "None" -> { Null }
-       [] k \in {"Loc", "Oth", "Col", "TV"} -> { Atom("Named", ClassName(k), <<>>) }
+       [] k \in {"Loc", "Oth", "Col", "TV", "TVS"} -> { Atom("Named", ClassName(k), <<>>) }
        [] k \in {"list", "Sequence", "Collection"} -> { Atom("List", "", << C(1) >>) }
        [] k = "set" -> { Atom("Set", "", << C(1) >>) }
        [] k \in {"dict", "Mapping"} -> { Atom("Map", "", << C(1), C(2) >>) }
@@ -105,8 +105,9 @@ Base == Leaves \cup LitTerms
 \* (`Name = None` is no type alias)
 AliasTerms(S) == LET s == { x \in S : x.k # "None" } IN { T1("Alias", x) : x \in s } \cup { T1(c, T1("Alias", x)) : c \in {"list", "Optional", "OrNone"}, x \in s }
 VarTuples(S) == LET s == S IN { T1("VarTuple", x) : x \in s } \cup { T1(c, T1("VarTuple", x)) : c \in {"list", "Optional"}, x \in s }
+BoundVarTerms == { T0("TVS"), T1("list", T0("TVS")), T2("dict", T0("str"), T0("TVS")), T1("Optional", T0("TVS")), T2("tuple", T0("TVS"), T0("int")) }
 QuickTerms(dummy) ==
-  AliasTerms(SmallLeaves \cup Un(TinyLeaves) \cup Bi(TinyLeaves)) \cup VarTuples(SmallLeaves \cup Un(TinyLeaves)) \cup
+  BoundVarTerms \cup AliasTerms(SmallLeaves \cup Un(TinyLeaves) \cup Bi(TinyLeaves)) \cup VarTuples(SmallLeaves \cup Un(TinyLeaves)) \cup
   D1(Base) \cup Te(SmallLeaves) \cup Ca(SmallLeaves)
   \cup Un(Un(SmallLeaves) \cup Bi(TinyLeaves) \cup Ca(TinyLeaves))                \* depth 2 under unary constructors
   \cup Bi(Un(TinyLeaves) \cup TinyLeaves)                                         \* depth 2 under binary constructors
@@ -168,7 +169,7 @@ ExpSeq(t, o) == IF o.pos = "result" THEN ExpectedResults(t) ELSE << Canon(t) >>
 (* "Optional or '| None' to a nullable type": when the meaning is one class, builtin, list, set, map or tuple type plus null, the type is    *)
 (* written in its nullable form `T?`, however the annotation spells it (duplicates, order, Optional / Union / |); a type variable, a    *)
 (* generic class and a callable have no nullable form and stay `union<T, Nothing?>`.                                                   *)
-HasNullableForm(a) == a.c \in {"Builtin", "List", "Set", "Map", "Tuple"} \/ (a.c = "Named" /\ a.args = <<>> /\ a.n # "TVar")
+HasNullableForm(a) == a.c \in {"Builtin", "List", "Set", "Map", "Tuple"} \/ (a.c = "Named" /\ a.args = <<>> /\ a.n \notin {"TVar", "TSelf"})
 MustBeNullable(t) == LET m == Canon(t) IN Null \in m /\ Cardinality(m \ {Null}) = 1 /\ HasNullableForm(CHOOSE a \in m \ {Null} : TRUE)
 JudgeForm(t, obs) ==
   { [ property |-> "C05", clause |-> "NullableForm", sig |-> o.pos \o ":nullable-type-written-as-union:" \o Shape(t),
